@@ -76,6 +76,10 @@ async fn run_one(sc: &Value, listener: &TcpListener, sched: &AsyncSched, idx: us
     let p1 = node.spawn(mk("P1")).await.expect("spawn");
     let p2 = node.spawn(mk("P2")).await.expect("spawn");
     let d = node.spawn(mk("D")).await.expect("spawn");
+    // the name has a history (LocalProc: Register / Unregister / Register, then the former owner terminates): it belonged to D,
+    // was handed over to P1, and D is gone by the time the peer writes to it
+    let _ = node.register(Atom::new("alpha"), d.clone()).await;
+    let _ = node.unregister(&Atom::new("alpha")).await;
     let _ = node.register(Atom::new("alpha"), p1.clone()).await;
     let _ = node.send(&d, a("die")).await;
     let n2 = node.clone();
